@@ -412,7 +412,10 @@ where
                     let os_ipc_shared_memory_regions;
                     let os_ipc_channels;
                     {
-                        bincode::serialize_into(&mut bytes, &data)?;
+                        let result = bincode::serialize_into(&mut bytes, &data);
+                        // Put the enclosing message's attachments back (and take ours out)
+                        // before looking at the result: a failed serialization must neither
+                        // leave its attachments behind nor lose those of an enclosing send.
                         os_ipc_channels = mem::replace(
                             &mut *os_ipc_channels_for_serialization.borrow_mut(),
                             old_os_ipc_channels,
@@ -421,6 +424,7 @@ where
                             &mut *os_ipc_shared_memory_regions_for_serialization.borrow_mut(),
                             old_os_ipc_shared_memory_regions,
                         );
+                        result?;
                     };
                     Ok(self.os_sender.send(
                         &bytes[..],
